@@ -564,51 +564,61 @@ func TestVerif_C26_Redemption(t *testing.T) {
 		}
 
 		c.seal(t)
-		shapeSel := rapid.IntRange(0, 2).Draw(t, "shape")
-		var builder *bitcoin.TransactionBuilder
-		var err error
+		// One fee distribution per proposal, as the redemption action keeps
+		// it (a field set by the constructor): a function VALUE that may be
+		// applied more than once - a second assembly of the same proposal
+		// (another shape), shares computed for logging - and must give the
+		// same shares every time.
+		dist := withRedemptionTotalFee(fee)
+		assemblies := rapid.IntRange(1, 3).Draw(t, "assemblies")
 		shapeName := ""
-		switch shapeSel {
-		case 0:
-			shapeName = "default"
-			builder, err = assembleRedemptionTransaction(c, pub, main, requests, withRedemptionTotalFee(fee))
-		case 1:
-			shapeName = "change-first"
-			builder, err = assembleRedemptionTransaction(c, pub, main, requests, withRedemptionTotalFee(fee), RedemptionChangeFirst)
-		default:
-			shapeName = "change-last"
-			builder, err = assembleRedemptionTransaction(c, pub, main, requests, withRedemptionTotalFee(fee), RedemptionChangeLast)
-		}
-		if err != nil {
-			t.Fatalf("assembly failed: %v", err)
-		}
-		tx, err := c26Finish(builder, key)
-		if err != nil {
-			t.Fatalf("signing the assembled transaction failed: %v", err)
-		}
+		for attempt := 0; attempt < assemblies; attempt++ {
+			shapeSel := rapid.IntRange(0, 2).Draw(t, "shape")
+			var builder *bitcoin.TransactionBuilder
+			var err error
+			switch shapeSel {
+			case 0:
+				shapeName += "default "
+				builder, err = assembleRedemptionTransaction(c, pub, main, requests, dist)
+			case 1:
+				shapeName += "change-first "
+				builder, err = assembleRedemptionTransaction(c, pub, main, requests, dist, RedemptionChangeFirst)
+			default:
+				shapeName += "change-last "
+				builder, err = assembleRedemptionTransaction(c, pub, main, requests, dist, RedemptionChangeLast)
+			}
+			if err != nil {
+				t.Fatalf("assembly %d failed: %v", attempt+1, err)
+			}
+			tx, err := c26Finish(builder, key)
+			if err != nil {
+				t.Fatalf("signing the assembled transaction failed: %v", err)
+			}
 
-		// model
-		var want []c26Out
-		for i, r := range requests {
-			share := fee / int64(n)
-			if i == n-1 {
-				share += fee % int64(n)
+			// model
+			var want []c26Out
+			for i, r := range requests {
+				share := fee / int64(n)
+				if i == n-1 {
+					share += fee % int64(n)
+				}
+				want = append(want, c26Out{redeemable[i] - share, r.RedeemerOutputScript})
 			}
-			want = append(want, c26Out{redeemable[i] - share, r.RedeemerOutputScript})
-		}
-		if change > 0 {
-			ch := c26Out{change, c26P2WPKH(pkh)}
-			if shapeSel == 2 {
-				want = append(want, ch)
-			} else {
-				want = append([]c26Out{ch}, want...)
+			if change > 0 {
+				ch := c26Out{change, c26P2WPKH(pkh)}
+				if shapeSel == 2 {
+					want = append(want, ch)
+				} else {
+					want = append([]c26Out{ch}, want...)
+				}
+			}
+			c26CheckInputs(t, tx, []c26Outpoint{c26OutpointOf(main)})
+			c26CheckOutputs(t, tx, want)
+			if paid := c26PaidFee(t, c, tx); paid != fee {
+				t.Fatalf("assembly %d of the proposal: transaction pays fee %d, proposed %d", attempt+1, paid, fee)
 			}
 		}
-		c26CheckInputs(t, tx, []c26Outpoint{c26OutpointOf(main)})
-		c26CheckOutputs(t, tx, want)
-		if paid := c26PaidFee(t, c, tx); paid != fee {
-			t.Fatalf("transaction pays fee %d, proposed %d", paid, fee)
-		}
+		shapeName = strings.TrimSpace(shapeName)
 
 		nt := change == 0 || rem != 0
 		remClass := "fee-remainder:zero"
@@ -616,7 +626,7 @@ func TestVerif_C26_Redemption(t *testing.T) {
 			remClass = "fee-remainder:nonzero"
 		}
 		st.Case(nt, fmt.Sprintf("main=%s:%d reqs(amount-treasury)=[%s] fee=%d shape=%s txmaxfee-below-share=%d", mainKind, mainValue, strings.TrimSpace(desc.String()), fee, shapeName, maxFeeBelow),
-			"main:"+mainKind, "requests:"+c26Bucket(n), "change:"+changeClass, remClass, "shape:"+shapeName,
+			"main:"+mainKind, "requests:"+c26Bucket(n), "change:"+changeClass, remClass, fmt.Sprintf("assemblies-per-distribution:%d", assemblies),
 			fmt.Sprintf("requests-with-txmaxfee-below-share:%d", min(maxFeeBelow, 3)))
 	})
 }
@@ -637,30 +647,47 @@ func TestVerif_C26_FeeShares(t *testing.T) {
 		default:
 			fee = rapid.Int64Range(0, 1<<50).Draw(t, "fee")
 		}
-		requests := make([]*RedemptionRequest, n)
-		for i := range requests {
-			requests[i] = &RedemptionRequest{RequestedAmount: uint64(i)}
-		}
-		shares := withRedemptionTotalFee(fee)(requests)
-		if len(shares) != n {
-			t.Fatalf("%d shares for %d requests", len(shares), n)
-		}
-		var sum int64
-		for i, s := range shares {
-			sum += s
-			want := fee / int64(n)
-			if i == n-1 {
-				want += fee % int64(n)
-			}
-			if s != want {
-				t.Fatalf("share %d of %d is %d, expected %d (fee %d)", i, n, s, want, fee)
+		// the distribution for a total fee is a function value: apply it to
+		// a short history of request lists (the same list again, other
+		// lengths) - every application must add up to the total fee
+		dist := withRedemptionTotalFee(fee)
+		uses := rapid.IntRange(1, 3).Draw(t, "uses")
+		lens := []int{n}
+		for u := 1; u < uses; u++ {
+			if rapid.Bool().Draw(t, "sameListAgain") {
+				lens = append(lens, n)
+			} else {
+				lens = append(lens, rapid.IntRange(1, 100).Draw(t, "otherRequests"))
 			}
 		}
-		if sum != fee {
-			t.Fatalf("shares add up to %d, proposed fee %d (n=%d)", sum, fee, n)
+		anyRem := false
+		for use, n := range lens {
+			requests := make([]*RedemptionRequest, n)
+			for i := range requests {
+				requests[i] = &RedemptionRequest{RequestedAmount: uint64(i)}
+			}
+			shares := dist(requests)
+			if len(shares) != n {
+				t.Fatalf("use %d: %d shares for %d requests", use+1, len(shares), n)
+			}
+			var sum int64
+			for i, s := range shares {
+				sum += s
+				want := fee / int64(n)
+				if i == n-1 {
+					want += fee % int64(n)
+				}
+				if s != want {
+					t.Fatalf("use %d of the distribution: share %d of %d is %d, expected %d (fee %d)", use+1, i, n, s, want, fee)
+				}
+			}
+			if sum != fee {
+				t.Fatalf("use %d of the distribution: shares add up to %d, proposed fee %d (n=%d)", use+1, sum, fee, n)
+			}
+			anyRem = anyRem || fee%int64(n) != 0
 		}
-		rem := fee % int64(n)
-		st.Case(rem != 0, fmt.Sprintf("n=%d fee=%d", n, fee), fmt.Sprintf("remainder-nonzero:%v", rem != 0), "requests:"+c26Bucket(min(n, 20)))
+		st.Case(anyRem, fmt.Sprintf("fee=%d request-list-lengths=%v", fee, lens), fmt.Sprintf("remainder-nonzero:%v", anyRem), "requests:"+c26Bucket(min(n, 20)),
+			fmt.Sprintf("uses-of-one-distribution:%d", uses))
 	})
 }
 
